@@ -727,7 +727,8 @@ def obligations(tier):
     if tier == "thorough":
         # (tpCN on a reflective coordinate is not enumerated: the parity forks exhaust the budget; its known finding is the
         #  same defect as on periodic coordinates, which the quick tier reports)
-        obs += [make_kernel("tpcn", 1, "interior", H, nu=5.0), make_kernel("tpcn", 1, "periodic", H, wraps=2), make_kernel("tpcn", 2, "interior", H, nu=4.0),
+        obs += [make_kernel("tpcn", 1, "interior", H, nu=5.0), make_kernel("tpcn", 1, "periodic", H, wraps=2),
+                # (tpcn d=2 at beta=1/2, nu=4 - power 3 of a quadratic form in 2-d - ends in nlsat `unknown`: not scheduled)
                 make_kernel("rwm", 2, "hard", 1), make_kernel("rwm", 2, "periodic", 1),
                 make_composition("tpcn", 2, 1, nu=5.0), make_composition("rwm", 1, 0, beta=1), make_composition("rwm", 2, 0)]
     return obs
